@@ -35,6 +35,31 @@ def module_state_refs(func) -> list[tuple[str, ast.AST]]:
     for n in A.walk_no_nested(func.node):
         if isinstance(n, ast.Name) and n.id in mutable and n.id not in local:
             out.append((n.id, n))
+    # state kept on the class object: stores through cls / self.__class__ / type(self) / the class
+    # name, and class-level mutable containers reached through self / cls
+    ci = func.cls
+    if ci is not None:
+        model = mod.model
+        mro = model.mro(ci)
+        cls_names = {c.name for c in mro} | {"cls"}
+        cls_mutable = {}
+        for c in mro:
+            for k, v in c.class_assigns.items():
+                if isinstance(v, (ast.Dict, ast.List, ast.Set, ast.DictComp, ast.ListComp, ast.SetComp)) or \
+                        (isinstance(v, ast.Call) and A.call_name(v) in MUTABLE_CTORS):
+                    cls_mutable.setdefault(k, c)
+
+        def is_class_obj(e):
+            d = ast.unparse(e).replace(" ", "")
+            return d in cls_names or d in ("self.__class__", "type(self)")
+        for n in A.walk_no_nested(func.node):
+            if isinstance(n, ast.Attribute) and isinstance(n.ctx, ast.Store) and is_class_obj(n.value):
+                out.append((f"class attribute {n.attr}", n))
+            elif isinstance(n, ast.Call) and A.call_name(n) == "setattr" and n.args and is_class_obj(n.args[0]):
+                out.append(("class attribute (setattr)", n))
+            elif isinstance(n, ast.Attribute) and n.attr in cls_mutable and \
+                    (A.dotted(n.value) == "self" or is_class_obj(n.value)):
+                out.append((f"class-level container {n.attr}", n))
     # decorators that memoise
     for d in func.node.decorator_list:
         s = ast.unparse(d)
@@ -54,6 +79,6 @@ def no_hidden_state(ctx: Ctx, rule: str, funcs, allowed: set[str]):
         bad = [(r, n) for r, n in refs if r not in allowed]
         if bad:
             r, n = bad[0]
-            ctx.fail(cons, f.loc(n), f"{f.qualname} reads/writes the module-level container `{r}`: its "
+            ctx.fail(cons, f.loc(n), f"{f.qualname} reads/writes the shared (module- or class-level) state `{r}`: its "
                      f"result depends on earlier calls (e.g. a class resolved once is returned for "
                      f"ever, although the request class or the command registry differs)")
